@@ -110,9 +110,59 @@ def expr(e):
         if isinstance(g.target, ast.Name) and len(g.ifs) <= 1 and not g.is_async:
             cond = 'None' if not g.ifs else '(Some %s)' % expr(g.ifs[0])
             return '(EListComp %s %s %s %s)' % (expr(e.elt), q(g.target.id), expr(g.iter), cond)
+    if isinstance(e, ast.Call) and isinstance(e.func, ast.Name) and e.func.id == 'sum' and len(e.args) == 1 \
+            and not e.keywords and isinstance(e.args[0], ast.GeneratorExp):
+        return sum_over_display(e.args[0])
+    if isinstance(e, ast.Call) and isinstance(e.func, ast.Attribute) and e.func.attr == 'count' \
+            and isinstance(e.func.value, (ast.List, ast.Tuple)) and len(e.args) == 1 and not e.keywords \
+            and isinstance(e.args[0], ast.Constant) and isinstance(e.args[0].value, str):
+        # [a, b, c].count('auto')  ==  (1 if a == 'auto' else 0) + ...   (the elements are pure: names / attributes)
+        r = '(EConst (VNum 0))'
+        for x in e.func.value.elts:
+            pure(x)
+            r = '(EBin Add %s (ECond (ECmp %s [(Eq, %s)]) (EConst (VNum 1)) (EConst (VNum 0))))' % (r, expr(x), expr(e.args[0]))
+        return r
     if isinstance(e, ast.Call):
         return call(e)
     raise Unsupported(ast.dump(e)[:200])
+
+
+def pure(x):
+    """names and attribute chains only: evaluating them twice, or not at all, cannot be observed"""
+    while isinstance(x, ast.Attribute):
+        x = x.value
+    if not isinstance(x, ast.Name):
+        raise Unsupported('element %s of a display is not a name / attribute' % ast.dump(x)[:80])
+
+
+class Subst(ast.NodeTransformer):
+    def __init__(self, name, by):
+        self.name, self.by = name, by
+
+    def visit_Name(self, n):
+        return self.by if isinstance(n.ctx, ast.Load) and n.id == self.name else n
+
+
+def sum_over_display(g):
+    """sum(elt for x in (a, b, c) if cond)  ==  0 + (elt[a] if cond[a] else 0) + ...   over a tuple / list display of
+    pure elements (Python's sum starts from 0 and adds from the left; an element filtered out adds nothing, here 0)"""
+    if len(g.generators) != 1:
+        raise Unsupported('sum over nested generators')
+    gen = g.generators[0]
+    if not (isinstance(gen.target, ast.Name) and isinstance(gen.iter, (ast.Tuple, ast.List)) and len(gen.ifs) <= 1
+            and not gen.is_async):
+        raise Unsupported('sum over %s' % ast.dump(gen.iter)[:80])
+    import copy
+    r = '(EConst (VNum 0))'
+    for x in gen.iter.elts:
+        pure(x)
+        elt = Subst(gen.target.id, x).visit(copy.deepcopy(g.elt))
+        term = expr(elt)
+        if gen.ifs:
+            cond = Subst(gen.target.id, x).visit(copy.deepcopy(gen.ifs[0]))
+            term = '(ECond %s %s (EConst (VNum 0)))' % (expr(cond), term)
+        r = '(EBin Add %s %s)' % (r, term)
+    return r
 
 
 # name -> (parameter names, {parameter: default expression text}) of the functions that may be called: the other
@@ -123,6 +173,8 @@ CALLS_SEEN = []
 # the theorem, recorded in the trusted base), name -> parameter names
 EXTERNAL = {
     'shrink_to_fit': (['context', 'box', 'available_content_width'], {}),
+    # OrientedBox.restore_box_attributes copies margin_a / margin_b / inner back to the real box
+    '.restore_box_attributes': (['self'], {}),
 }
 
 
@@ -212,6 +264,14 @@ def stmt(s):
             and s.value.func.attr == 'append' and isinstance(s.value.func.value, ast.Name) \
             and len(s.value.args) == 1 and not s.value.keywords:
         return '(SAppend %s %s)' % (q(s.value.func.value.id), expr(s.value.args[0]))
+    if isinstance(s, ast.Expr) and isinstance(s.value, ast.Call):
+        # f(...) / x.m(...) for its effect: only for the oracles of EXTERNAL (the effect is outside the model; the call
+        # and its arguments stay visible: the result is bound to "%call", which is not a Python name)
+        f = s.value.func
+        name = f.id if isinstance(f, ast.Name) else ('.' + f.attr if isinstance(f, ast.Attribute) else None)
+        if name in EXTERNAL:
+            return '(SAssign [(TVar "%%call")] %s)' % call(s.value)
+        raise Unsupported('call statement of %s' % name)
     if isinstance(s, ast.While) and not s.orelse:
         for n in ast.walk(s):
             # break / continue inside a `for` nested in the loop would target that `for`: not in the subset
@@ -401,6 +461,12 @@ TARGETS = {
     'GenAbsolute': ('weasyprint/layout/absolute.py', [
         ('fun', 'absolute_width', 'absolute_width', {'callable': False}),
         ('fun', 'absolute_height', 'absolute_height', {'callable': False}),
+    ]),
+    'GenPage': ('weasyprint/layout/page.py', [
+        ('fun', 'page_width_or_height', 'page_width_or_height', {}),
+        # from rule 2 on (the first statement wraps the box into an OrientedBox adapter)
+        ('fun', 'compute_fixed_dimension', 'compute_fixed_dimension', {
+            'slice_from': 'total', 'params': ['box', 'outer', 'top_or_left']}),
     ]),
     'GenCss': ('weasyprint/css/__init__.py', [
         ('fun', 'declaration_precedence', 'declaration_precedence', {}),
